@@ -21,9 +21,20 @@ def group_name(image_file_name):
     return pol
 
 
-def unique_root(kind, tag="p"):
+# glob magic (* ? [ ] { }) is left out on purpose: FSMap.__getitem__ glob-expands such paths inside fsspec, which is not the
+# package's doing ('a**b' is rejected by fsspec outright, 'a*b' may match a sibling directory)
+ODD = ["#", " ", "%", "+", "&", "=", "(", ")", "\u00e9", "\u30c7\u30fc\u30bf", ",", ";", "@", "!", "~", "'", "%20", "|", "$", "^", "`"]
+ODD_NO_GLOB = ODD
+
+
+def unique_root(kind, tag="p", rng=None, p_odd=0.3):
+    """a fresh product directory; with an rng, 30% of the directory names carry characters that are special to URLs,
+    globs or shells (all of them open fine on the pinned tree)"""
     n = next(_counter)
     name = f"{tag}{os.getpid()}_{n}"
+    if rng is not None and rng.random() < p_odd:
+        pool = ODD if kind in ("local", "file", "memory") else ODD_NO_GLOB
+        name = name + rng.choice(pool) + rng.choice(pool) + "x"
     if kind in ("local", "file"):
         return os.path.join(env.scratch(), "products", name)
     return f"/{name}"
@@ -48,6 +59,10 @@ def rpc_class(rpc, n):
 
 
 def geom_class(lines, pixels):
+    if pixels >= 1000:
+        return "wide"
+    if lines >= 300:
+        return "tall"
     if lines == 1 and pixels == 1:
         return "1x1"
     if lines == 1:
